@@ -108,24 +108,28 @@ func parseValidatorTags(tag string) ([]validatorTag, error) {
 }
 
 func tryValidate(val reflect.Value) error {
-	t := val.Type()
-	var validator Validator
+	// the value a pointer points to or an interface holds is validated like one
+	// held directly: look through them until a type with a Validate method is met
+	for {
+		t := val.Type()
+		indirect := t.Kind() == reflect.Ptr || t.Kind() == reflect.Interface
+		if indirect && val.IsNil() {
+			return nil
+		}
 
-	if (t.Kind() == reflect.Ptr || t.Kind() == reflect.Interface) && val.IsNil() {
-		return nil
-	}
+		if t.Implements(tValidator) {
+			return val.Interface().(Validator).Validate()
+		}
+		if t.Kind() != reflect.Interface && reflect.PtrTo(t).Implements(tValidator) {
+			val = pointerize(reflect.PtrTo(t), t, val)
+			return val.Interface().(Validator).Validate()
+		}
 
-	if t.Implements(tValidator) {
-		validator = val.Interface().(Validator)
-	} else if reflect.PtrTo(t).Implements(tValidator) {
-		val = pointerize(reflect.PtrTo(t), t, val)
-		validator = val.Interface().(Validator)
+		if !indirect {
+			return nil
+		}
+		val = val.Elem()
 	}
-
-	if validator == nil {
-		return nil
-	}
-	return validator.Validate()
 }
 
 func runValidators(val interface{}, validators []validatorTag) error {
